@@ -20,6 +20,18 @@ content (0..3h+3 items / lines for every view height h) with the same interprete
 by itself (rows * 3 < number of items: the scope stated in the two known findings) whether a ListBox is long enough for ScrollBar's
 item-based estimate, which is the only situation in which the two listed relative-mode findings are tolerated.
 
+Canvas cache (wave 5): urwid refuses to cache a canvas built from an uncached one, so with the recording leaves
+(no_cache) no Scrollable / AttrMap / ListBox canvas is ever served from CanvasCache.  Half of the cases therefore
+build the content from leaves that go through the cache like stock widgets (``cached``), and half of the cases keep
+*every* canvas of the history referenced (``hold: all``; a screen, a parent or a test does that - the cache holds
+weak references only) instead of just the last one; op "back" resizes to a size the view had before, op "swap"
+re-assigns the ``original_widget`` of a decoration of the chain (ScrollBar, an AttrMap / WidgetPlaceholder in
+between, Scrollable) to a second content ("alt").  When a draw renders no leaf at all (everything came from the
+cache) the handed-width clause has nothing to observe; the picture is then judged against the full render at both
+widths the content can have been handed (view width, view width minus bar) and accepted if one satisfies every clause.
+Two more sweeps: ``_roundtrip_cases`` (size A at every position -> every other small size B -> A, canvases held)
+and ``_pageswitch_cases`` (every decoration of every chain shape re-assigned between pages of every length class).
+
 Weaker-than-possible readings, deliberately:
   * nothing is asserted about *where* a key/wheel event scrolls to (the property only says the
     result is a valid window); only ``set_scrollpos(n)`` is compared with its docstring (lines from
@@ -54,11 +66,24 @@ RULE = (
     "relative scrollbar mode; in a third of the ListBox cases the number of items is k * view rows + d, k in "
     "1..4, d in -1..1, half of them starting at the top). View 1..20 x 1..10 (>= bar width + 1 columns). Ops: keys up/down/page up/"
     "page down/home/end/left/right/x/a/enter/tab/backspace, mouse press buttons 1/4/5 at any cell, "
-    "set_scrollpos(-2^40..2^40, biased to small), resize, content change (set_text / contents insert, "
-    "delete, relabel / fixed-probe resize / BigText text+font), scrollbar_side / scrollbar_width. Oracle "
+    "set_scrollpos(-2^40..2^40, biased to small), resize, back (resize to the k-th most recent earlier size of "
+    "the history), content change (set_text / contents insert, "
+    "delete, relabel / fixed-probe resize / BigText text+font), swap (content change by re-assigning the "
+    "original_widget of the ScrollBar, of the AttrMap / WidgetPlaceholder between bar and scrolling widget (half of "
+    "the bar cases have one) or of the Scrollable to a second, independently drawn content of the same family), "
+    "scrollbar_side / scrollbar_width. Per case: the leaves either record every draw (no_cache) or go through "
+    "urwid's canvas cache like stock widgets, and the harness keeps either the last canvas or every canvas of the "
+    "history referenced. Oracle "
     "after every op (slice of the harness's own full render; bar geometry). Non-trivial: the history "
-    "reaches an end of a scrollable range (p == max > 0, or back to 0 after p > 0) and afterwards a resize "
-    "or content change is applied and checked. Before the random campaign a deterministic sweep "
+    "reaches an end of a scrollable range (p == max > 0, or back to 0 after p > 0) and afterwards a resize, back, "
+    "swap or content change is applied and checked. Before the random campaign three deterministic sweeps. "
+    "size-round-trips-canvases-held: every view height hA 1..5 (thorough 1..8) x Text of hA+1..hA+4 lines x every "
+    "position (by set_scrollpos or by 'down' keys) x every other view B (same width, every height 1..n+1; same "
+    "height, 2 columns narrower / wider) then back to A and one 'down', cacheable content, all canvases held, "
+    "with and without ScrollBar. page-switches-every-decoration: view height 1..4 (thorough 1..6) x page lengths "
+    "{h-1, h, h+1, 2h+2}^2 x ScrollBar over Scrollable / ListBox x nothing / AttrMap / WidgetPlaceholder in between "
+    "x every decoration of the chain re-assigned, interleaved with end / down / home, recording and cacheable "
+    "content. And "
     "(small-views-every-position): every view height 1..6 (thorough 1..9) x every content size n in 0..3h+3 "
     "under a ScrollBar: ListBox of n items (heights 1 / 2 / 3 / 1,2,3 cyclic / 3,1 cyclic; unselectable Text or "
     "selectable probes) walked from the top to the end and back with down/up and with page down/page up, and "
@@ -71,6 +96,12 @@ ASSUMPTIONS = [
     "utf-8 encoding only (the default thumb symbol is not representable elsewhere)",
     "the wrapped widget is never handed 0 columns: view width > scrollbar width",
     "every op is followed by a render, as in MainLoop (input, then draw_screen)",
+    "a canvas that is still referenced (by the harness, standing in for a screen or a parent canvas) may be served "
+    "again by CanvasCache; whatever is served must be the right picture for the current state",
+    "a draw in which no leaf is rendered (all from the cache) cannot show the width the content was handed: the "
+    "picture is judged at both possible widths and accepted if one satisfies all clauses",
+    "re-assigning WidgetDecoration.original_widget (ScrollBar, AttrMap, WidgetPlaceholder, Scrollable) to a widget "
+    "of the sizing the decoration was built around is a supported content change",
 ]
 
 ASSERT_SETPOS_DOC = True
@@ -131,6 +162,23 @@ class RecPile(urwid.Pile):
         return super().render(size, focus)
 
 
+class CRecText(urwid.Text):
+    """Text that goes through urwid's canvas cache like any stock widget: it records a width only when it is
+    really rendered (a cache hit records nothing)."""
+
+    def render(self, size, focus=False):
+        REC.append(size[0] if size else None)
+        return super().render(size, focus)
+
+
+class CRecPile(urwid.Pile):
+    """Pile that goes through the canvas cache; records when it is really rendered."""
+
+    def render(self, size, focus=False):
+        REC.append(size[0] if size else None)
+        return super().render(size, focus)
+
+
 class KeyProbe(urwid.Widget):
     """Selectable flow leaf: `nrows` tagged rows; consumes (and logs) the configured keys / buttons."""
 
@@ -146,6 +194,9 @@ class KeyProbe(urwid.Widget):
         return self.nrows
 
     def render(self, size, focus=False):
+        return self._draw(size)
+
+    def _draw(self, size):
         (maxcol,) = size
         REC.append(maxcol)
         rows = [f"{self.uid}P{i}".encode()[:maxcol].ljust(maxcol) for i in range(self.nrows)]
@@ -162,6 +213,18 @@ class KeyProbe(urwid.Widget):
             self.log.append(("mouse", button))
             return True
         return False
+
+
+class CKeyProbe(KeyProbe):
+    """The same through the canvas cache (every change of `nrows` is followed by _invalidate())."""
+
+    no_cache = []
+
+    def rows(self, size, focus=False):
+        return self.nrows
+
+    def render(self, size, focus=False):
+        return self._draw(size)
 
 
 class FixedProbe(urwid.Widget):
@@ -192,6 +255,9 @@ class FixedProbe(urwid.Widget):
         return ("".join(out) + " " * (want - w)).encode("utf-8")
 
     def render(self, size, focus=False):
+        return self._draw(size)
+
+    def _draw(self, size):
         if size != ():
             raise AssertionError(f"fixed probe rendered with size {size!r}")
         return urwid.TextCanvas([self._row(i) for i in range(self.r)], maxcol=self.c)
@@ -209,18 +275,78 @@ class FixedProbe(urwid.Widget):
         return False
 
 
+class CFixedProbe(FixedProbe):
+    """The same through the canvas cache (every change of c / r is followed by _invalidate())."""
+
+    no_cache = []
+
+    def render(self, size, focus=False):
+        return self._draw(size)
+
+
+REC_TEXTS = (RecText, CRecText)
+
 # ---------------------------------------------------------------------------------------------
 # building widgets from specs
 
 
 class World:
-    pass
+    """The widget chain  [ScrollBar ->] [decoration ->] Scrollable -> content  (or ... -> ListBox).
+
+    With an alternative content ("alt" in the case) there are two widgets of every level below the top one and
+    every decoration of the chain (ScrollBar, the decoration in between, Scrollable) can have its
+    ``original_widget`` re-assigned to the other widget of the level below (op "swap"); ``resolve`` follows
+    the chain to what is displayed now.
+    """
+
+    def resolve(self):
+        leaf = 0
+        if self.bar is not None:
+            leaf = self.deco_child[self.bar_child] if self.decos else self.bar_child
+        if self.scrs:
+            self.scr, self.lb = self.scrs[leaf], None
+            ii = self.scr_child[leaf]
+        else:
+            self.scr, self.lb = None, self.inners[leaf]
+            ii = leaf
+        self.inner, self.ck = self.inners[ii], self.cks[ii]
+        self.flow = self.ck in ("text", "pile", "listbox")
+
+    def swap(self, level):
+        """Re-assign the original_widget of one decoration of the displayed chain; False if there is no alternative."""
+        if len(self.inners) < 2:
+            return False
+        levels = []
+        if self.bar is not None:
+            levels.append("bar")
+            if self.decos:
+                levels.append("deco")
+        if self.scrs:
+            levels.append("scr")
+        lv = levels[level % len(levels)]
+        leaves = self.scrs or self.inners
+        if lv == "bar":
+            self.bar_child ^= 1
+            self.bar.original_widget = (self.decos or leaves)[self.bar_child]
+        elif lv == "deco":
+            d = self.bar_child
+            self.deco_child[d] ^= 1
+            self.decos[d].original_widget = leaves[self.deco_child[d]]
+        else:
+            self.resolve()
+            s = self.scrs.index(self.scr)
+            self.scr_child[s] ^= 1
+            self.scr.original_widget = self.inners[self.scr_child[s]]
+        self.resolve()
+        _count("swap:" + lv)
+        return True
 
 
-def _flow_item(spec, uid, log):
+def _flow_item(spec, uid, log, cached=False):
     t = spec["t"]
     if t == "text":
-        return RecText(text_markup(uid, spec["lines"]), wrap=spec.get("wrap", "space"), align=spec.get("align", "left"))
+        cls = CRecText if cached else RecText
+        return cls(text_markup(uid, spec["lines"]), wrap=spec.get("wrap", "space"), align=spec.get("align", "left"))
     if t == "edit":
         return urwid.Edit("c" * spec["cap"], (uid * 20)[: spec["txt"]], multiline=spec["ml"])
     if t == "button":
@@ -228,72 +354,90 @@ def _flow_item(spec, uid, log):
     if t == "div":
         return urwid.Divider(spec["ch"], top=spec["top"], bottom=spec["bottom"])
     if t == "probe":
-        return KeyProbe(uid, spec["rows"], spec["keys"], spec["buttons"], log)
+        return (CKeyProbe if cached else KeyProbe)(uid, spec["rows"], spec["keys"], spec["buttons"], log)
     raise AssertionError(spec)
+
+
+def _build_content(w, case, content):
+    ck = content["c"]
+    uid, cached = w.new_uid, w.cached
+    if ck == "text":
+        cls = CRecText if cached else RecText
+        return cls(text_markup(uid(), content["lines"]), wrap=content["wrap"], align=content["align"])
+    if ck == "pile":
+        items = [_flow_item(s, uid(), w.log, cached) for s in content["items"]]
+        inner = (CRecPile if cached else RecPile)(items)
+        sel = [i for i, it in enumerate(items) if it.selectable()]
+        if sel:
+            inner.focus_position = sel[content["focus"] % len(sel)]
+        return inner
+    if ck == "fixed":
+        cls = CFixedProbe if cached else FixedProbe
+        return cls(content["cols"], content["rows"], content["wide"], content["keys"], content["buttons"], w.log)
+    if ck == "bigtext":
+        return urwid.BigText(content["text"], getattr(urwid, FONTS[content["font"] % len(FONTS)])())
+    if ck == "listbox":
+        filler = CRecText if cached else RecText
+        items = [_flow_item(s, uid(), w.log, cached) for s in content["items"]]
+        items += [filler(text_markup(uid(), [1]), wrap="clip") for _ in range(content["tail"])]
+        if content.get("fit"):
+            # len(body) == k * (rows of the first view) + d, at least one item
+            k, d = content["fit"]
+            want = max(1, k * case["size"][1] + d)
+            del items[want:]
+            items += [filler(text_markup(uid(), [1]), wrap="clip") for _ in range(want - len(items))]
+        inner = urwid.ListBox(urwid.SimpleFocusListWalker(items))
+        if items:
+            inner.set_focus(content["focus"] % len(items))
+        return inner
+    raise AssertionError(ck)
 
 
 def build(case):
     w = World()
     w.log = []
     w.uid = 0
-    content = case["content"]
-    ck = content["c"]
-    w.ck = ck
+    w.cached = bool(case.get("cached"))
 
     def uid():
         w.uid += 1
         return _tag(w.uid)
 
     w.new_uid = uid
-    if ck == "text":
-        w.inner = RecText(text_markup(uid(), content["lines"]), wrap=content["wrap"], align=content["align"])
-    elif ck == "pile":
-        items = [_flow_item(s, uid(), w.log) for s in content["items"]]
-        w.inner = RecPile(items)
-        sel = [i for i, it in enumerate(items) if it.selectable()]
-        if sel:
-            w.inner.focus_position = sel[content["focus"] % len(sel)]
-    elif ck == "fixed":
-        w.inner = FixedProbe(content["cols"], content["rows"], content["wide"], content["keys"], content["buttons"], w.log)
-    elif ck == "bigtext":
-        w.inner = urwid.BigText(content["text"], getattr(urwid, FONTS[content["font"] % len(FONTS)])())
-    elif ck == "listbox":
-        items = [_flow_item(s, uid(), w.log) for s in content["items"]]
-        items += [RecText(text_markup(uid(), [1]), wrap="clip") for _ in range(content["tail"])]
-        if content.get("fit"):
-            # len(body) == k * (rows of the first view) + d, at least one item
-            k, d = content["fit"]
-            want = max(1, k * case["size"][1] + d)
-            del items[want:]
-            items += [RecText(text_markup(uid(), [1]), wrap="clip") for _ in range(want - len(items))]
-        w.inner = urwid.ListBox(urwid.SimpleFocusListWalker(items))
-        if items:
-            w.inner.set_focus(content["focus"] % len(items))
-    else:
-        raise AssertionError(ck)
+    contents = [case["content"]] + ([case["alt"]] if case.get("alt") else [])
+    w.cks = [c["c"] for c in contents]
+    w.inners = [_build_content(w, case, c) for c in contents]
 
-    w.flow = ck in ("text", "pile", "listbox")
-    w.scr = w.lb = w.bar = None
+    w.bar = None
+    w.scrs, w.decos = [], []
+    w.bar_child, w.deco_child, w.scr_child = 0, [0, 1], [0, 1]
     kind = case["kind"]
     if kind in ("scrollable", "sb_scrollable"):
-        if ck == "listbox":
+        if "listbox" in w.cks:
             raise Discard()
-        w.scr = urwid.Scrollable(w.inner, force_forward_keypress=bool(case.get("ffk")))
-        below = w.scr
+        w.scrs = [urwid.Scrollable(x, force_forward_keypress=bool(case.get("ffk"))) for x in w.inners]
+        leaves = w.scrs
     else:
-        if ck != "listbox":
+        if set(w.cks) != {"listbox"}:
             raise Discard()
-        w.lb = below = w.inner
+        leaves = w.inners
     if kind == "scrollable":
-        w.top = w.scr
+        w.top = w.scrs[0]
     else:
         b = case["bar"]
-        if case.get("deco"):
-            below = urwid.AttrMap(below, None)
+        deco = case.get("deco")
+        if deco in (True, "attrmap"):
+            w.decos = [urwid.AttrMap(x, None) for x in leaves]
+        elif deco == "placeholder":
+            w.decos = [urwid.WidgetPlaceholder(x) for x in leaves]
+        elif deco:
+            raise AssertionError(deco)
         w.thumb, w.trough = BAR_CHARS[b["thumb"]], BAR_CHARS[b["trough"]]
         if w.thumb == w.trough:
             raise Discard()
-        w.bar = w.top = urwid.ScrollBar(below, thumb_char=w.thumb, trough_char=w.trough, side=b["side"], width=b["width"])
+        w.bar = w.top = urwid.ScrollBar((w.decos or leaves)[0], thumb_char=w.thumb, trough_char=w.trough, side=b["side"],
+                                        width=b["width"])
+    w.resolve()
     return w
 
 
@@ -386,14 +530,16 @@ def _run(case, mode, wlog):
         cols = max(cols, bw + 1)
     deferred = []
     prev = None  # last validated state
-    keep = None  # last canvas, held like a screen would (keeps the canvas cache populated)
+    # canvases held like a screen / a parent's canvas would hold them (CanvasCache keeps weak references only):
+    # hold "last": the canvas of the last draw;  hold "all": every canvas of the history (a canvas stays valid
+    # for as long as somebody refers to it, so whatever the cache serves later must still be the right picture)
+    hold_all = case.get("hold") == "all"
+    kept = []
+    sizes = [(cols, rows)]  # the distinct view sizes of the history, most recently used last
     hw_last = None
     reached_end = False
     seen_scrolled = False
     nt = False
-
-    def soft(v):
-        deferred.append(v)
 
     ops = [["init"], *case["ops"]]
     for op in ops:
@@ -412,7 +558,7 @@ def _run(case, mode, wlog):
                 if w.lb is None:
                     raise
                 # ListBox's own key handling failed (C07's subject, seen through ScrollBar): record, keep going
-                soft(Violation(f"listbox-raises:ListBoxError:key:{op[1]}", f"after {op}: {e}"))
+                deferred.append(Violation(f"listbox-raises:ListBoxError:key:{op[1]}", f"after {op}: {e}"))
         elif kind == "mouse":
             w.top.mouse_event((cols, rows), "mouse press", op[1], op[2] % cols, op[3] % rows, focus)
         elif kind == "setpos":
@@ -424,6 +570,15 @@ def _run(case, mode, wlog):
             cols, rows = op[1], op[2]
             if bw is not None:
                 cols = max(cols, bw + 1)
+        elif kind == "back":
+            # resize to a size the view already had earlier in this history (the op[1]-th most recent other one)
+            earlier = sizes[:-1] if sizes[-1] == (cols, rows) else sizes
+            if not earlier:
+                continue
+            cols, rows = earlier[-1 - op[1] % len(earlier)]
+            if bw is not None:
+                cols = max(cols, bw + 1)
+            _count("op:back-to-earlier-size")
         elif kind == "side":
             if w.bar is None:
                 continue
@@ -438,8 +593,16 @@ def _run(case, mode, wlog):
             applied = _content_op(w, op)
             if not applied:
                 continue
+        elif kind == "swap":
+            # content change by re-assigning the original_widget of a decoration of the chain
+            if not w.swap(op[1]):
+                continue
+            hw_last = None
         else:
             raise AssertionError(op)
+        if (cols, rows) in sizes:
+            sizes.remove((cols, rows))
+        sizes.append((cols, rows))
         consumed = len(w.log) > log_before
         if consumed:
             _count("op:consumed-by-probe")
@@ -458,14 +621,19 @@ def _run(case, mode, wlog):
             if not (rows == 1 or max(1, round(min(1.0, rows / max(1, n_reduced)) * rows)) >= rows):
                 raise
             pos = w.scr.get_scrollpos() if w.scr is not None else "?"
-            soft(Violation("bar-render-raises:WidgetError:thumb-fills-bar",
-                           f"after {op}: ScrollBar.render(({cols}, {rows})), {n_reduced} content rows, position {pos}: {e}"))
-            prev = keep = None
+            deferred.append(Violation("bar-render-raises:WidgetError:thumb-fills-bar",
+                                      f"after {op}: ScrollBar.render(({cols}, {rows})), {n_reduced} content rows, position {pos}: {e}"))
+            prev = None
+            if not hold_all:
+                del kept[:]
             del REC[:]
             continue
         handed = {x for x in REC}
         del REC[:]
-        keep = canv
+        if hold_all:
+            kept.append(canv)
+        else:
+            kept[:] = [canv]
         if _mis_built(wlog):
             raise Discard()
         try:
@@ -478,159 +646,51 @@ def _run(case, mode, wlog):
         # ---- which width was the wrapped widget handed --------------------------------------
         if len(handed) > 1:
             raise Violation("handed-width", f"after {op}: leaves were rendered at several widths {sorted(handed, key=repr)}")
+        if handed or not w.flow or (w.lb is not None and not len(w.lb.body)):
+            # observed;  or None: decided in _judge (fixed content: from F, which does not depend on the width;
+            # empty ListBox: nothing to hand anything to)
+            cands = [handed.pop() if handed else None]
+        else:
+            # No leaf was rendered in this draw: everything below came out of the canvas cache (possible only for
+            # cacheable content: case["cached"], BigText), so nothing was handed to the wrapped widget now and the
+            # width clause has nothing to observe.  The picture is then judged against the full render at either
+            # width the wrapped widget can have been handed when the cached canvas was made (the view width or the
+            # view width minus the bar); the state is accepted if one of the two satisfies every clause.
+            cands = [cols] if w.bar is None else [cols - bw, cols]
+            if hw_last in cands:
+                cands.remove(hw_last)
+                cands.insert(0, hw_last)
+            _count("state:served-from-cache")
+        first = None
+        for hw_try in cands:
+            softs, counts = [], []
+            try:
+                state, hw_used, maxp = _judge(w, mode, op, grid, cols, rows, bw, side, focus, hw_try, prev, consumed, setpos_n,
+                                              log_before, softs.append, counts.append)
+            except Violation as v:
+                if first is None:
+                    first = v
+                continue
+            break
+        else:
+            raise first
+        deferred.extend(softs)
+        for label in counts:
+            _count(label)
         if w.flow:
-            if handed:
-                hw_last = handed.pop()
-            hw = hw_last
-            if w.lb is not None and not len(w.lb.body):
-                # empty ListBox: no leaf is handed anything; no content, so no bar: the view must be blank
-                hw_last = None
-                hw = cols
-                if C.diff(grid, window([], 0, rows, cols)) is not None:
-                    raise Violation("bar-iff-overflow", f"after {op}: empty ListBox, view {(cols, rows)} is not blank: "
-                                    f"{C.diff(grid, window([], 0, rows, cols))}")
-            if hw is None:
-                raise AssertionError("no recording leaf was rendered")
-        else:
-            hw = None  # decided below from F (F does not depend on the width)
-
-        if w.bar is None:
-            if hw is None:
-                hw = cols
-            F = full_render(w, hw, focus, mode)
-            region, bar_parts, rw = grid, None, cols
-        else:
-            if hw is None:
-                F = full_render(w, cols, focus, mode)
-                hw = cols - bw if len(F) > rows else cols
-            elif hw not in (cols, cols - bw):
-                raise Violation("handed-width", f"after {op}: view {cols} columns, bar width {bw}, wrapped widget handed {hw}")
-            else:
-                F = full_render(w, hw, focus, mode)
-            bar_drawn = hw == cols - bw
-            if bar_drawn != (len(F) > rows) and w.flow and (
-                len(full_render(w, cols if bar_drawn else cols - bw, focus, mode)) > rows
-            ) != (len(F) > rows):
-                # The property does not say at which width "the content has more rows than the view" is
-                # judged (the full view width, where the decision has to be made, or the reduced width the
-                # content is then handed).  When the two disagree (e.g. a Button gets *shorter* when its
-                # decoration columns no longer fit) either outcome is accepted: weaker reading.
-                _count("bar:verdict-depends-on-width")
-            elif bar_drawn != (len(F) > rows):
-                raise Violation(
-                    "bar-iff-overflow",
-                    f"after {op}: content has {len(F)} rows at the {hw} columns it was handed, view has {rows} rows, "
-                    f"view width {cols}, bar width {bw}: scrollbar {'drawn' if bar_drawn else 'not drawn'}",
-                )
-            if bar_drawn:
-                top_h, thumb_h, bottom_h, region = parse_bar(w, grid, cols, bw, side)
-                bar_parts = (top_h, thumb_h, bottom_h)
-                rw = cols - bw
-                _count("state:bar-drawn")
-            else:
-                region, bar_parts, rw = grid, None, cols
-                _count("state:no-bar")
-
-        maxp = max(0, len(F) - rows)
-        fits = len(F) <= rows and (not F or len(F[0]) <= rw)
-
-        # ---- position -----------------------------------------------------------------------
-        p = None
-        if w.scr is not None:
-            rep = w.scr.get_scrollpos()
-            if isinstance(rep, int) and 0 <= rep <= maxp and C.diff(region, window(F, rep, rows, rw)) is None:
-                p = rep
-            else:
-                found = [q for q in range(0, maxp + 1) if C.diff(region, window(F, q, rows, rw)) is None]
-                if not found:
-                    near = rep if isinstance(rep, int) and 0 <= rep <= maxp else 0
-                    raise Violation(
-                        "slice",
-                        f"after {op}: view {(cols, rows)}, content {len(F)} rows x {len(F[0]) if F else 0}: canvas is not a window "
-                        f"p..p+{rows} of the full render for any 0<=p<={maxp}; reported position {rep!r}; vs window({near}): "
-                        f"{C.diff(region, window(F, near, rows, rw))}",
-                    )
-                p = found[0]
-                v = Violation(
-                    "position-reported:" + ("content-fits" if fits else "scrolling"),
-                    f"after {op}: view {(cols, rows)}, content {len(F)} rows: canvas shows rows {found}..+{rows}, "
-                    f"get_scrollpos() reports {rep!r}",
-                )
-                if fits:
-                    soft(v)  # candidate defect (stale _trim_top when the content fits); keep going
-                else:
-                    raise v
-        else:
-            found = [q for q in range(0, max(1, len(F))) if C.diff(region, window(F, q, rows, rw)) is None]
-            if len(found) == 1:
-                p = found[0]
-                if p > maxp:
-                    _count("lb:blank-below-while-scrolled")
-            else:
-                _count("lb:position-ambiguous" if found else "lb:window-not-located")
-            if rows * 3 < len(w.inner.body):
-                _count("lb:relative-mode")
-
-        # ---- documented set_scrollpos semantics (cursor-less content only) --------------------
-        if ASSERT_SETPOS_DOC and setpos_n is not None and w.ck in ("text", "fixed", "bigtext") and len(F) > rows:
-            want = min(setpos_n, maxp) if setpos_n >= 0 else max(0, maxp + setpos_n + 1)
-            if p != want:
-                raise Violation(
-                    "set_scrollpos-doc",
-                    f"set_scrollpos({setpos_n}) with {len(F)} content rows in a {rows}-row view: first visible row {p}, "
-                    f"documented (lines from the {'top' if setpos_n >= 0 else 'bottom'}, clamped): {want}",
-                )
-
-        # ---- bar geometry against the position ---------------------------------------------
-        key = (cols, rows, side, bw, hw, C.grid_text(F))
-        if bar_parts is not None and p is not None:
-            top_h, thumb_h, bottom_h = bar_parts
-            if thumb_h < rows and (top_h == 0) != (p == 0):
-                v = Violation(
-                    "thumb-top-iff-first-row",
-                    f"after {op}: first visible row {p} of {len(F)}, view {rows} rows: bar top/thumb/bottom = {bar_parts}",
-                )
-                if w.lb is not None and rows * 3 < len(w.lb.body) and top_h == 0 and 0 < p < w.lb.body[0].rows((hw,)):
-                    # candidate defect: relative (item-granular) scrollbar mode ignores that the first item is
-                    # partly scrolled out.  Keep going.
-                    v.clause += ":relative-mode-first-item-partly-visible"
-                    soft(v)
-                else:
-                    raise v
-            if prev is not None and prev["key"] == key and prev["bar"] is not None and prev["p"] is not None:
-                if (p > prev["p"] and top_h < prev["bar"][0]) or (p < prev["p"] and top_h > prev["bar"][0]):
-                    v = Violation(
-                        "thumb-monotone",
-                        f"after {op}: position {prev['p']} -> {p} but thumb top {prev['bar'][0]} -> {top_h} "
-                        f"(bars {prev['bar']} -> {bar_parts}; {len(F)} rows, view {rows})",
-                    )
-                    if w.lb is not None and rows * 3 < len(w.lb.body) and thumb_h != prev["bar"][1]:
-                        # candidate defect: in relative (item-granular) mode the thumb length follows the number of
-                        # items in view, which changes with the items' heights while scrolling.  Keep going.
-                        v.clause += ":relative-mode-thumb-resized"
-                        soft(v)
-                    else:
-                        raise v
-
-        # ---- consumed events do not scroll ---------------------------------------------------
-        if consumed and kind in ("key", "mouse") and prev is not None and p is not None and prev["p"] is not None:
-            lb_ok = w.lb is None or kind == "key" or op[1] in (4, 5)
-            if lb_ok and prev["key"][:5] == key[:5] and prev["nrows"] == len(F) and p != prev["p"]:
-                raise Violation(
-                    "consumed-event-scrolls",
-                    f"{op} was handled by the wrapped probe ({w.log[log_before:]}) but the position went {prev['p']} -> {p}",
-                )
+            hw_last = hw_used
+        p = state["p"]
 
         # ---- coverage --------------------------------------------------------------------------
         if p is not None:
             if p > 0:
                 seen_scrolled = True
-            if kind in ("resize", "edit") and reached_end:
+            if kind in ("resize", "edit", "back", "swap") and reached_end:
                 nt = True
             if (maxp > 0 and p == maxp) or (seen_scrolled and p == 0 and maxp > 0):
                 reached_end = True
                 _count("state:at-end-of-range")
-        prev = {"key": key, "p": p, "bar": bar_parts, "nrows": len(F)}
+        prev = state
 
     if _CTX is not None and _CTX.failure is None:
         if nt:
@@ -639,6 +699,149 @@ def _run(case, mode, wlog):
             _CTX.count("nt:end-then-resize-or-edit")
     if deferred:
         raise deferred[0]
+
+
+def _judge(w, mode, op, grid, cols, rows, bw, side, focus, hw, prev, consumed, setpos_n, log_before, soft, _count):
+    """All clauses for one drawn state, given the width `hw` the wrapped widget was handed (None: not applicable).
+    -> (state, hw, maxp); raises Violation."""
+    kind = op[0]
+    if w.flow and w.lb is not None and not len(w.lb.body):
+        # empty ListBox: no leaf is handed anything; no content, so no bar: the view must be blank
+        if C.diff(grid, window([], 0, rows, cols)) is not None:
+            raise Violation("bar-iff-overflow", f"after {op}: empty ListBox, view {(cols, rows)} is not blank: "
+                            f"{C.diff(grid, window([], 0, rows, cols))}")
+        hw = cols
+    elif w.flow and hw is None:
+        raise AssertionError("no width for flow content")
+
+    if w.bar is None:
+        if hw is None:
+            hw = cols
+        F = full_render(w, hw, focus, mode)
+        region, bar_parts, rw = grid, None, cols
+    else:
+        if hw is None:
+            F = full_render(w, cols, focus, mode)
+            hw = cols - bw if len(F) > rows else cols
+        elif hw not in (cols, cols - bw):
+            raise Violation("handed-width", f"after {op}: view {cols} columns, bar width {bw}, wrapped widget handed {hw}")
+        else:
+            F = full_render(w, hw, focus, mode)
+        bar_drawn = hw == cols - bw
+        if bar_drawn != (len(F) > rows) and w.flow and (
+            len(full_render(w, cols if bar_drawn else cols - bw, focus, mode)) > rows
+        ) != (len(F) > rows):
+            # The property does not say at which width "the content has more rows than the view" is
+            # judged (the full view width, where the decision has to be made, or the reduced width the
+            # content is then handed).  When the two disagree (e.g. a Button gets *shorter* when its
+            # decoration columns no longer fit) either outcome is accepted: weaker reading.
+            _count("bar:verdict-depends-on-width")
+        elif bar_drawn != (len(F) > rows):
+            raise Violation(
+                "bar-iff-overflow",
+                f"after {op}: content has {len(F)} rows at the {hw} columns it was handed, view has {rows} rows, "
+                f"view width {cols}, bar width {bw}: scrollbar {'drawn' if bar_drawn else 'not drawn'}",
+            )
+        if bar_drawn:
+            top_h, thumb_h, bottom_h, region = parse_bar(w, grid, cols, bw, side)
+            bar_parts = (top_h, thumb_h, bottom_h)
+            rw = cols - bw
+            _count("state:bar-drawn")
+        else:
+            region, bar_parts, rw = grid, None, cols
+            _count("state:no-bar")
+
+    maxp = max(0, len(F) - rows)
+    fits = len(F) <= rows and (not F or len(F[0]) <= rw)
+
+    # ---- position -----------------------------------------------------------------------
+    p = None
+    if w.scr is not None:
+        rep = w.scr.get_scrollpos()
+        if isinstance(rep, int) and 0 <= rep <= maxp and C.diff(region, window(F, rep, rows, rw)) is None:
+            p = rep
+        else:
+            found = [q for q in range(0, maxp + 1) if C.diff(region, window(F, q, rows, rw)) is None]
+            if not found:
+                near = rep if isinstance(rep, int) and 0 <= rep <= maxp else 0
+                raise Violation(
+                    "slice",
+                    f"after {op}: view {(cols, rows)}, content {len(F)} rows x {len(F[0]) if F else 0}: canvas is not a window "
+                    f"p..p+{rows} of the full render for any 0<=p<={maxp}; reported position {rep!r}; vs window({near}): "
+                    f"{C.diff(region, window(F, near, rows, rw))}",
+                )
+            p = found[0]
+            v = Violation(
+                "position-reported:" + ("content-fits" if fits else "scrolling"),
+                f"after {op}: view {(cols, rows)}, content {len(F)} rows: canvas shows rows {found}..+{rows}, "
+                f"get_scrollpos() reports {rep!r}",
+            )
+            if fits:
+                soft(v)  # candidate defect (stale _trim_top when the content fits); keep going
+            else:
+                raise v
+    else:
+        found = [q for q in range(0, max(1, len(F))) if C.diff(region, window(F, q, rows, rw)) is None]
+        if len(found) == 1:
+            p = found[0]
+            if p > maxp:
+                _count("lb:blank-below-while-scrolled")
+        else:
+            _count("lb:position-ambiguous" if found else "lb:window-not-located")
+        if rows * 3 < len(w.inner.body):
+            _count("lb:relative-mode")
+
+    # ---- documented set_scrollpos semantics (cursor-less content only) --------------------
+    if ASSERT_SETPOS_DOC and setpos_n is not None and w.ck in ("text", "fixed", "bigtext") and len(F) > rows:
+        want = min(setpos_n, maxp) if setpos_n >= 0 else max(0, maxp + setpos_n + 1)
+        if p != want:
+            raise Violation(
+                "set_scrollpos-doc",
+                f"set_scrollpos({setpos_n}) with {len(F)} content rows in a {rows}-row view: first visible row {p}, "
+                f"documented (lines from the {'top' if setpos_n >= 0 else 'bottom'}, clamped): {want}",
+            )
+
+    # ---- bar geometry against the position ---------------------------------------------
+    key = (cols, rows, side, bw, hw, C.grid_text(F))
+    if bar_parts is not None and p is not None:
+        top_h, thumb_h, bottom_h = bar_parts
+        if thumb_h < rows and (top_h == 0) != (p == 0):
+            v = Violation(
+                "thumb-top-iff-first-row",
+                f"after {op}: first visible row {p} of {len(F)}, view {rows} rows: bar top/thumb/bottom = {bar_parts}",
+            )
+            if w.lb is not None and rows * 3 < len(w.lb.body) and top_h == 0 and 0 < p < w.lb.body[0].rows((hw,)):
+                # candidate defect: relative (item-granular) scrollbar mode ignores that the first item is
+                # partly scrolled out.  Keep going.
+                v.clause += ":relative-mode-first-item-partly-visible"
+                soft(v)
+            else:
+                raise v
+        if prev is not None and prev["key"] == key and prev["bar"] is not None and prev["p"] is not None:
+            if (p > prev["p"] and top_h < prev["bar"][0]) or (p < prev["p"] and top_h > prev["bar"][0]):
+                v = Violation(
+                    "thumb-monotone",
+                    f"after {op}: position {prev['p']} -> {p} but thumb top {prev['bar'][0]} -> {top_h} "
+                    f"(bars {prev['bar']} -> {bar_parts}; {len(F)} rows, view {rows})",
+                )
+                if w.lb is not None and rows * 3 < len(w.lb.body) and thumb_h != prev["bar"][1]:
+                    # candidate defect: in relative (item-granular) mode the thumb length follows the number of
+                    # items in view, which changes with the items' heights while scrolling.  Keep going.
+                    v.clause += ":relative-mode-thumb-resized"
+                    soft(v)
+                else:
+                    raise v
+
+    # ---- consumed events do not scroll ---------------------------------------------------
+    if consumed and kind in ("key", "mouse") and prev is not None and p is not None and prev["p"] is not None:
+        lb_ok = w.lb is None or kind == "key" or op[1] in (4, 5)
+        if lb_ok and prev["key"][:5] == key[:5] and prev["nrows"] == len(F) and p != prev["p"]:
+            raise Violation(
+                "consumed-event-scrolls",
+                f"{op} was handled by the wrapped probe ({w.log[log_before:]}) but the position went {prev['p']} -> {p}",
+            )
+
+    return {"key": key, "p": p, "bar": bar_parts, "nrows": len(F)}, hw, maxp
 
 
 def _content_op(w, op):
@@ -671,7 +874,7 @@ def _content_op(w, op):
         if what == 1:
             if len(cont) >= 12:
                 return False
-            cont.insert(b % (len(cont) + 1), (_flow_item(spec, w.new_uid(), w.log), w.inner.options()))
+            cont.insert(b % (len(cont) + 1), (_flow_item(spec, w.new_uid(), w.log, w.cached), w.inner.options()))
             return True
         return _relabel(w, cont[b % len(cont)][0], c)
     if ck == "listbox":
@@ -687,7 +890,7 @@ def _content_op(w, op):
                 return False
             if spec["t"] not in ("text", "probe"):
                 spec = {"t": "text", "lines": [1 + c % 3]}
-            body.insert(b % (len(body) + 1), _flow_item(spec, w.new_uid(), w.log))
+            body.insert(b % (len(body) + 1), _flow_item(spec, w.new_uid(), w.log, w.cached))
             return True
         if not len(body):
             return False
@@ -696,7 +899,7 @@ def _content_op(w, op):
 
 
 def _relabel(w, item, c):
-    if isinstance(item, RecText):
+    if isinstance(item, REC_TEXTS):
         item.set_text(text_markup(w.new_uid(), [(c + i) % 5 for i in range(1 + c % 4)]))
     elif isinstance(item, urwid.Edit):
         item.set_edit_text((w.new_uid() * 20)[: c % 35])
@@ -777,22 +980,31 @@ _op = st.one_of(
     st.tuples(st.just("edit"), st.integers(0, 30), st.integers(0, 30), st.integers(0, 30), _pile_item),
     st.tuples(st.just("side"), st.sampled_from(["left", "right"])),
     st.tuples(st.just("width"), st.integers(1, 3)),
+    st.tuples(st.just("back"), st.sampled_from([0, 0, 1, 2, 3])),
+    st.tuples(st.just("back"), st.sampled_from([0, 0, 1, 2, 3])),
+    st.tuples(st.just("swap"), st.integers(0, 2)),
 ).map(list)
+
+
+_deco = st.sampled_from([False, False, "attrmap", "placeholder"])
 
 
 def _case(max_ops):
     ops = st.lists(_op, min_size=1, max_size=max_ops)
-    common = {"size": _size, "focus": st.sampled_from([True, True, True, False]), "ops": ops}
+    # hold: which canvases stay referenced (the last one / all of the history); cached: the content goes through
+    # the canvas cache like stock widgets do (so Scrollable's own canvases are cached) or is re-rendered and
+    # records its width on every draw; alt: the second content of the same family for the "swap" op
+    common = {"size": _size, "focus": st.sampled_from([True, True, True, False]), "ops": ops,
+              "hold": st.sampled_from(["last", "all"]), "cached": st.booleans()}
+    _lb = st.one_of(_c_lb, _c_lb, _c_lb_fit)
     return st.one_of(
-        st.fixed_dictionaries({"kind": st.just("scrollable"), "content": _scr_content, "ffk": st.booleans(), **common}),
+        st.fixed_dictionaries({"kind": st.just("scrollable"), "content": _scr_content, "alt": _scr_content, "ffk": st.booleans(),
+                               **common}),
         st.fixed_dictionaries(
-            {"kind": st.just("sb_scrollable"), "content": _scr_content, "ffk": st.booleans(), "bar": _bar,
-             "deco": st.sampled_from([False, False, False, True]), **common}
+            {"kind": st.just("sb_scrollable"), "content": _scr_content, "alt": _scr_content, "ffk": st.booleans(), "bar": _bar,
+             "deco": _deco, **common}
         ),
-        st.fixed_dictionaries(
-            {"kind": st.just("sb_listbox"), "content": st.one_of(_c_lb, _c_lb, _c_lb_fit), "bar": _bar,
-             "deco": st.sampled_from([False, False, False, True]), **common}
-        ),
+        st.fixed_dictionaries({"kind": st.just("sb_listbox"), "content": _lb, "alt": _lb, "bar": _bar, "deco": _deco, **common}),
     )
 
 
@@ -810,6 +1022,10 @@ def _classes(case):
         out.append("bar:left")
     if case.get("bar") and case["bar"]["width"] > 1:
         out.append("bar:wide")
+    out.append(f"hold:{case.get('hold', 'last')}")
+    out.append("content:" + ("through-canvas-cache" if case.get("cached") else "recording-uncached"))
+    if case.get("deco"):
+        out.append(f"deco:{case['deco']}")
     return out
 
 
@@ -862,8 +1078,68 @@ def _sweep_cases(hmax):
             }
 
 
+def _roundtrip_cases(hmax):
+    """Size round trips A -> B -> A with every canvas of the history still referenced, content that goes through
+    the canvas cache: every view height hA in 1..hmax, every Text of n = hA+1..hA+4 one-word lines (so there is a
+    scrollable range at A), every position p of that range (reached by set_scrollpos or by p x 'down'), every
+    other view B out of: the same width with every height 1..n+1 (shorter, taller but still scrolling, taller so
+    that the position has to be clamped, exactly fitting, more than fitting) and the same height 2 columns
+    narrower / wider; then back to A, and one more 'down'.  Plain Scrollable and under a ScrollBar."""
+    for ha in range(1, hmax + 1):
+        for n in range(ha + 1, ha + 5):
+            for p in range(0, n - ha + 1):
+                for via in ("setpos", "down"):
+                    move = [["setpos", p]] if via == "setpos" else [["key", "down"]] * p
+                    for kind in ("scrollable", "sb_scrollable"):
+                        others = [[9, hb] for hb in range(1, n + 2) if hb != ha] + [[7, ha], [11, ha]]
+                        for b_size in others:
+                            case = {
+                                "kind": kind,
+                                "content": {"c": "text", "lines": [1] * n, "wrap": "clip", "align": "left"},
+                                "ffk": False, "size": [9, ha], "focus": True, "hold": "all", "cached": True,
+                                "ops": [*move, ["resize", *b_size], ["back", 0], ["key", "down"]],
+                                "sweep": f"roundtrip/{via}",
+                            }
+                            if kind == "sb_scrollable":
+                                case["bar"] = {"side": "right", "width": 1, "thumb": 8, "trough": 10}
+                                case["deco"] = False
+                            yield case
+
+
+def _pageswitch_cases(hmax):
+    """Page switches: every chain shape (ScrollBar over Scrollable / over ListBox; nothing, an AttrMap or a
+    WidgetPlaceholder in between) x every decoration of the chain whose original_widget can be re-assigned
+    (ScrollBar, the decoration in between, Scrollable) x every pair of page lengths out of {h-1, h, h+1, 2h+2}
+    (fits, fits exactly, one row more, long) x view height h in 1..hmax: draw, switch, scroll to the end, switch
+    back, one row down, switch again, home, switch back; content through the canvas cache or recording."""
+    bar = {"side": "right", "width": 1, "thumb": 8, "trough": 10}
+    for h in range(1, hmax + 1):
+        lengths = [h - 1, h, h + 1, 2 * h + 2]
+        for n0 in lengths:
+            for n1 in lengths:
+                for kind in ("sb_scrollable", "sb_listbox"):
+                    for deco in (False, "attrmap", "placeholder"):
+                        nlevels = 1 + bool(deco) + (kind == "sb_scrollable")
+                        for level in range(nlevels):
+                            for cached in (False, True):
+                                if kind == "sb_scrollable":
+                                    c0, c1 = ({"c": "text", "lines": [1] * n, "wrap": "clip", "align": "left"} for n in (n0, n1))
+                                else:
+                                    c0, c1 = ({"c": "listbox", "items": [{"t": "text", "lines": [1], "wrap": "clip"}] * n,
+                                               "tail": 0, "focus": 0} for n in (n0, n1))
+                                sw = ["swap", level]
+                                yield {
+                                    "kind": kind, "content": c0, "alt": c1, "ffk": False, "bar": bar, "deco": deco,
+                                    "size": [10, h], "focus": True, "hold": "all", "cached": cached,
+                                    "ops": [sw, ["key", "end"], sw, ["key", "down"], sw, ["key", "home"], sw],
+                                    "sweep": f"pageswitch/{kind}/{deco or 'direct'}/{level}",
+                                }
+
+
 def _sweep_classes(case):
     out = ["sweep:" + case["sweep"].split("/")[0]]
+    if out[0] in ("sweep:roundtrip", "sweep:pageswitch"):
+        return out
     if case["kind"] == "sb_listbox":
         n, h = len(case["content"]["items"]), case["size"][1]
         out.append("sweep:lb:items " + ("< 3 screens" if n < 3 * h else "== 3 screens" if n == 3 * h else "> 3 screens"))
@@ -876,6 +1152,14 @@ def shard(ctx):
     try:
         ctx.sweep("hist", _sweep_cases(ctx.scale(6, 9)), nontrivial=lambda c: False, classify=_sweep_classes,
                   exhaustive_name="small-views-every-position")
+        if ctx.failure is not None:
+            return
+        ctx.sweep("hist", _roundtrip_cases(ctx.scale(5, 8)), nontrivial=lambda c: False, classify=_sweep_classes,
+                  exhaustive_name="size-round-trips-canvases-held")
+        if ctx.failure is not None:
+            return
+        ctx.sweep("hist", _pageswitch_cases(ctx.scale(4, 6)), nontrivial=lambda c: False, classify=_sweep_classes,
+                  exhaustive_name="page-switches-every-decoration")
         if ctx.failure is not None:
             return
         ctx.given("hist", _case(ctx.scale(30, 60)), ctx.scale(400, 8000), nontrivial=lambda c: False, classify=_classes)
